@@ -142,6 +142,16 @@ fn replay_one(path: &str) -> i32 {
 
 fn lib_keys(o: &Outcome) -> Vec<(Value, String)> {
     if let Outcome::Result(v) = o {
+        if v["class"] == "ok" {
+            if let Some(rt) = v["roundtrip"].as_str() {
+                if rt != "equal" {
+                    return vec![(
+                        json!({"class":"export_does_not_load_back_equal","tool":"(library)","what":crate::modelfault::generic(&crate::panics::skeleton(rt))}),
+                        format!("Model::from_json(model.as_json()) is not the converted model: {}", rt),
+                    )];
+                }
+            }
+        }
         if v["class"] == "ok" && v["stdout_bytes"].as_u64().unwrap_or(0) > 0 {
             let h = crate::panics::skeleton(v["stdout_head"].as_str().unwrap_or(""));
             return vec![(
@@ -251,8 +261,16 @@ pub fn run(tier: &str, seed: u64, replay: Option<String>) -> i32 {
             if !seen.insert((sl.tag.clone(), sl.value.clone())) {
                 continue;
             }
-            for alt in dict.alternatives(&sl.value) {
+            let mut alts = dict.alternatives(&sl.value);
+            // optional fields and defaults: an XML leaf left empty
+            if f.text.split('\n').nth(sl.line).map(|l| l.trim_start().starts_with('<')).unwrap_or(false) && sl.value.len() > 1 {
+                alts.push(String::new());
+            }
+            for alt in alts {
                 for flags_on in [false, true] {
+                    if alt.is_empty() && flags_on {
+                        continue;
+                    }
                     opt_space += 1;
                     opt_jobs.push(DJob {
                         file: f.rel.clone(),
